@@ -184,7 +184,13 @@ def _roots_sorted(py) -> bool:
     uses = [ast.unparse(p) for n in ast.walk(ga) for p in [py.parents.get(n)]
             if isinstance(n, ast.Name) and n.id == "usenodes" and isinstance(n.ctx, ast.Load) and p is not None]
     only_ctor = all(u.startswith("usenodes.append") or u.startswith("ModuleGraph(usenodes") for u in uses)
-    return "root = sorted(list(root))" in ast.unparse(init) and only_ctor
+    # the roots parameter (first parameter after self) is re-bound to a sorted sequence before it is iterated
+    rp = [a.arg for a in init.args.args if a.arg != "self"][0]
+    srt = [n for n in ast.walk(init) if isinstance(n, ast.Assign) and any(isinstance(t, ast.Name) and t.id == rp for t in n.targets)
+           and isinstance(n.value, ast.Call) and call_name(n.value) == "sorted"]
+    loops = [n for n in ast.walk(init) if isinstance(n, ast.For) and isinstance(n.iter, ast.Name) and n.iter.id == rp]
+    sorted_first = bool(srt) and all(srt[0].lineno < l.lineno for l in loops)
+    return sorted_first and only_ctor
 
 
 def _extensions_unordered_uses(py) -> bool:
@@ -470,9 +476,15 @@ def r5_serial_parallel_agree(ctx, rep):
     """worker count: the serial and the parallel branch of output_graphs write the same graphs."""
     py = ctx.py
     fn = py.func("GraphManager.output_graphs")
-    br = [n for n in fn.body if isinstance(n, ast.If) and "njobs == 0" in ast.unparse(n.test)]
+    # the branch on the worker-count parameter (first parameter after self): `if <njobs> == 0: serial else: parallel`
+    wp = [a.arg for a in fn.args.args if a.arg != "self"][0]
+    br = [n for n in fn.body if isinstance(n, ast.If) and n.orelse and any(isinstance(x, ast.Name) and x.id == wp for x in ast.walk(n.test))]
     if not br:
-        raise AnalysisError("output_graphs: `if njobs == 0` not found")
+        raise AnalysisError("output_graphs: the branch on the worker count was not found")
+    br_loc = br[0]
+    if isinstance(br[0].test, ast.Compare) and isinstance(br[0].test.ops[0], (ast.NotEq, ast.Gt)) or \
+            (isinstance(br[0].test, ast.Name)):
+        br[0] = ast.copy_location(ast.If(test=br[0].test, body=br[0].orelse, orelse=br[0].body), br[0])     # `if njobs != 0 / > 0 / njobs:` puts the parallel branch first
     serial, parallel = br[0].body, br[0].orelse
     s_map: Dict[str, Set[str]] = {}
     for st in serial:
@@ -496,11 +508,11 @@ def r5_serial_parallel_agree(ctx, rep):
         ok = s_map.get(coll) == p_map.get(coll)
         rep.ob(f"output_graphs {coll}: same graphs in both branches", ok,
                f"{sorted(s_map.get(coll, []))}" if ok else
-               f"serial writes {sorted(s_map.get(coll, []))}, parallel writes {sorted(p_map.get(coll, []))}", py.nloc(br[0]))
+               f"serial writes {sorted(s_map.get(coll, []))}, parallel writes {sorted(p_map.get(coll, []))}", py.nloc(br_loc))
     rep.ob("output_graphs: parallel work list is not filtered", not filtered,
            "every entity of every collection is handed to the workers" if not filtered else
            f"the parallel branch filters {filtered[0][0]} by `{filtered[0][1]}` while the serial branch writes all graphs of "
-           f"every entity: with parallel > 0 the other graph of a filtered entity is not written", py.nloc(br[0]))
+           f"every entity: with parallel > 0 the other graph of a filtered entity is not written", py.nloc(br_loc))
 
 
 def r6_naming_order(ctx, rep):
